@@ -16,6 +16,7 @@ import (
 func init() {
 	reg(func(c *Ctx) {
 		var b strings.Builder
+		required := map[string]bool{}
 		b.WriteString("namespace Generated.OAuth\n")
 
 		// ---- oauthex.checkURLScheme: the list of disallowed schemes -------------------------------
@@ -126,8 +127,7 @@ func init() {
 		}
 		c.Fact("oauth.fallback_endpoints", fb)
 		fmt.Fprintf(&b, "/-- `Authorize`: suffixes of the 2025-03-26 fall-back endpoints (authorization, token, registration). -/\ndef fallbackSuffixes : List String := %s\n", LeanStrList(fbOrder))
-		b.WriteString("end Generated.OAuth\n")
-		c.Lean["OAuthGen"] = b.String()
+		leanHead := b.String()
 
 		// ---- structural facts: order of checks and calls -----------------------------------------
 		c.Fact("oauth.Authorize.calls", callOrder(c, c.Func("auth", "AuthorizationCodeHandler", "Authorize"),
@@ -146,6 +146,19 @@ func init() {
 		c.Fact("oauth.RegisterClient.checks", checkSeq(c, c.Func("oauthex", "", "RegisterClient")))
 		// validateAuthServerMetaURLs: which fields get which check
 		if fd := c.Func("oauthex", "", "validateAuthServerMetaURLs"); fd != nil {
+			// REQUIRED endpoints: top-level `if asm.X == "" { return <error> }`
+			req := map[string]bool{}
+			for _, st := range fd.Body.List {
+				if ifs, ok := st.(*ast.IfStmt); ok && ifs.Init == nil && returnsError(ifs.Body) {
+					switch c.Src(ifs.Cond) {
+					case `asm.TokenEndpoint == ""`:
+						req["token"] = true
+					case `asm.AuthorizationEndpoint == ""`:
+						req["authorization"] = true
+					}
+				}
+			}
+			required = req
 			var groups [][]string
 			var checks []string
 			ast.Inspect(fd, func(n ast.Node) bool {
@@ -177,6 +190,8 @@ func init() {
 		} else {
 			c.Errf("oauth: validateAuthServerMetaURLs not found")
 		}
+		leanHead += fmt.Sprintf("/-- oauthex/auth_meta.go `validateAuthServerMetaURLs`: does it refuse metadata whose token_endpoint / authorization_endpoint is empty?\n(not in the pinned tree: known finding C15-empty-token-endpoint; true once the candidate fix is applied) -/\ndef tokenEndpointRequired : Bool := %v\ndef authorizationEndpointRequired : Bool := %v\n", required["token"], required["authorization"])
+		c.Lean["OAuthGen"] = leanHead + "end Generated.OAuth\n"
 		// the only assignments to h.tokenSource
 		sites := []string{}
 		for _, f := range c.load("auth") {
